@@ -92,9 +92,9 @@ func fieldAttributes(r *core.Run) {
 		for _, st := range top {
 			if as, ok := st.(*ast.AssignStmt); ok && len(as.Lhs) == 1 {
 				if s, ok := as.Lhs[0].(*ast.SelectorExpr); ok && core.ExprStr(s.X) == core.ExprStr(last.Results[0]) {
-					got[s.Sel.Name] = core.NormExpr(info, ptrArg(as.Rhs[0]))
+					got[s.Sel.Name] = core.NormExpr(info, ptrOnly(info, as.Rhs[0]))
 					if s.Sel.Name == "Name" {
-						nameVar = core.ExprStr(ptrArg(as.Rhs[0]))
+						nameVar = core.ExprStr(ptrOnly(info, as.Rhs[0]))
 					}
 				}
 			}
@@ -117,6 +117,22 @@ func fieldAttributes(r *core.Run) {
 			o.Auto("Name ← snake(declared name), JsonName ← declared name, Number ← positional number, all on the unconditional tail")
 		}
 	}
+	// the synthetic map-entry message is named after the proto field name (protoc derives
+	// <CamelCase(field name)>Entry from the name the field has in the descriptor)
+	core.InspectTree(pk, fd.Body, func(n ast.Node) bool {
+		c, ok := n.(*ast.CallExpr)
+		if !ok || len(c.Args) != 1 || !core.CalleeIs(info, c, convRel, "mapName") {
+			return true
+		}
+		o := r.Add("R-FLOW/attr", "j5convert.buildProperty | map entry name source", c.Pos(), "name of the synthetic map entry message")
+		got := resolvedNorm(r, pk, c.Args[0], 3)
+		if got == "strcase.ToSnake(‹*ObjectProperty›.Name)" {
+			o.Auto("mapName(<snake_case field name>): the name the field carries in the descriptor")
+		} else {
+			o.Fail("the map entry message is named from %s, not from the snake_case name the field is given in the descriptor: where the two differ (digits, acronyms) the linker does not recognise the nested message as the field's map entry", got)
+		}
+		return true
+	})
 	// Proto3Optional only under ExplicitlyOptional
 	ast.Inspect(core.TreeBody(pk, fd, "buildField"), func(n ast.Node) bool {
 		as, ok := n.(*ast.AssignStmt)
@@ -140,7 +156,29 @@ func fieldAttributes(r *core.Run) {
 			if v := requiredFlag(info, pk, fd); v != nil && f.False[v.Name()] {
 				notRequired = true
 			}
-			if optional && notRequired {
+			// and nothing else decides it: every `if` around the store tests the optional flag or the
+			// required flag — a further condition drops the marker for some explicitly optional fields
+			foreign := ""
+			flag := requiredFlag(info, pk, fd)
+			for _, p := range core.PathTo(fd.Body, as) {
+				is, ok := p.(*ast.IfStmt)
+				if !ok || !(is.Body.Pos() <= as.Pos() && as.End() <= is.Body.End()) {
+					continue
+				}
+				own := strings.Contains(core.ExprStr(is.Cond), ".ExplicitlyOptional")
+				ast.Inspect(is.Cond, func(n ast.Node) bool {
+					if id, ok := n.(*ast.Ident); ok && flag != nil && info.Uses[id] == flag {
+						own = true
+					}
+					return true
+				})
+				if !own {
+					foreign = core.ExprStr(is.Cond)
+				}
+			}
+			if optional && notRequired && foreign != "" {
+				o.Fail("Proto3Optional is also conditioned by %s: an explicitly optional property for which that is false compiles without the marker, and the schema read back is no longer explicitly optional", foreign)
+			} else if optional && notRequired {
 				o.Auto("set only when the property is explicitly optional and not required")
 			} else {
 				o.Fail("Proto3Optional is not guarded by ExplicitlyOptional && !required")
@@ -431,4 +469,92 @@ func requiredFlag(info *types.Info, pk *packages.Package, fd *ast.FuncDecl) type
 		return true
 	})
 	return out
+}
+
+// resolvedNorm prints an expression with locals replaced by their types, after
+// replacing a local that has a single definition by that definition and a
+// parameter of an unexported helper by the argument of its call sites (which
+// have to agree).
+func resolvedNorm(r *core.Run, pk *packages.Package, e ast.Expr, depth int) string {
+	info := pk.TypesInfo
+	for ; depth > 0; depth-- {
+		id, ok := core.Unparen(e).(*ast.Ident)
+		if !ok {
+			break
+		}
+		v, ok := info.Uses[id].(*types.Var)
+		if !ok {
+			break
+		}
+		fd := r.P.EnclosingDecl(id.Pos())
+		if fd == nil {
+			break
+		}
+		if a := aliasExprOf(info, fd, e); a != nil {
+			e = a
+			continue
+		}
+		// a parameter: the arguments at the call sites
+		idx, i := -1, 0
+		for _, f := range fd.Type.Params.List {
+			for _, nm := range f.Names {
+				if info.Defs[nm] == v {
+					idx = i
+				}
+				i++
+			}
+		}
+		if idx < 0 {
+			break
+		}
+		self := info.Defs[fd.Name]
+		var args []ast.Expr
+		core.AllFuncDecls(pk, func(cfd *ast.FuncDecl) {
+			ast.Inspect(cfd.Body, func(n ast.Node) bool {
+				if c, ok := n.(*ast.CallExpr); ok && idx < len(c.Args) {
+					if fn := core.CalleeFunc(info, c); fn != nil && types.Object(fn.Origin()) == self {
+						args = append(args, c.Args[idx])
+					}
+				}
+				return true
+			})
+		})
+		if len(args) == 0 {
+			break
+		}
+		first := resolvedNorm(r, pk, args[0], depth-1)
+		for _, a := range args[1:] {
+			if resolvedNorm(r, pk, a, depth-1) != first {
+				return "different values at different call sites"
+			}
+		}
+		return first
+	}
+	return core.NormExpr(info, e)
+}
+
+// ptrOnly unwraps pointer-making helpers (gl.Ptr, proto.String, …) and type
+// conversions, nothing else.
+func ptrOnly(info *types.Info, e ast.Expr) ast.Expr {
+	for {
+		c, ok := core.Unparen(e).(*ast.CallExpr)
+		if !ok || len(c.Args) != 1 {
+			return e
+		}
+		if core.IsConversion(info, c) {
+			e = c.Args[0]
+			continue
+		}
+		name := core.CalleeName(info, c)
+		short := name[strings.LastIndex(name, ".")+1:]
+		if i := strings.Index(short, "["); i > 0 {
+			short = short[:i]
+		}
+		switch short {
+		case "Ptr", "String", "Int32", "Int64", "Uint32", "Uint64", "Bool", "Float32", "Float64":
+			e = c.Args[0]
+			continue
+		}
+		return e
+	}
 }
